@@ -1,4 +1,4 @@
-import FalconModel.CorsConfig
+import FalconModel.CorsCall
 open Co
 
 /-! Line-protocol driver for the CORS policy model (C20): `Co.processF` = `CORSMiddleware.process_response` as it is in the
@@ -16,10 +16,16 @@ open Co
     Reply: `cfg ao=*|-|S,S,… ac=*|-|S,S,… ex=~|S` (sets printed sorted by their encoding) or
            `err wildcard-origins | wildcard-credentials | origins-not-iterable`.
 
+    `Cg.construct` = one call `CORSMiddleware(*pos, **kw)` (argument binding of the documented signature, then `__init__`):
+      call pos=-|A/A/…  kao=!|A  kex=!|A  kac=!|A        `!` = keyword not passed
+    Reply: as for `norm`, or `err TypeError` (a fourth positional argument / a parameter bound twice).
+
     `Cg.appInit` / `Cg.runAdds` (the `cors_enable` wiring) and `Pl.run` on the resulting stack:
       stack ce=0|1 indep=0|1 arg=M adds=-|M/M/… target=route|nomethod|sink|nothing resp=ret|raise fail=-|<n> pf=0|1
       M = ~ (None) | s<K> (one bare component) | l- | l<K>,<K>,…     K = u (a CORSMiddleware of the caller) | o<n> (another component)
-    Other components define process_request (raises iff n = fail) and process_response (returns).
+    Other components define process_request (raises iff n = fail), process_response (raises iff n = pfail, optional word) and,
+    when the optional word `rsrc=1` is given, process_resource (raises iff n = rfail).  `resp=raise` stands for every way a
+    responder can raise (HTTPError, HTTPStatus of any status, an exception taken by a registered handler).
     Reply: `init=err` or `init=ok adds=-|<0/1 per call> stack=K,… calls=-|K:<resource set>:<req_succeeded>,…` where the component
     that cors_enable constructed prints as `C:?:<req_succeeded if pf=1 else ?>` (its flag is only observable in a preflight). -/
 
@@ -99,6 +105,22 @@ def runNorm (ws : List String) : String :=
   | .error .wildcardInCredentials => "err wildcard-credentials"
   | .error .originsNotIterable => "err origins-not-iterable"
 
+def decKw (s : String) : Option Cg.Arg := if s == "!" || s == "" then none else some (decArg s)
+
+def cfgReply : Except Cg.CallError Cfg → String
+  | .ok c => s!"cfg ao={encOrigins c.allowOrigins} ac={encOrigins c.allowCredentials} ex={encOpt c.exposeHeaders}"
+  | .error (.config .wildcardInOrigins) => "err wildcard-origins"
+  | .error (.config .wildcardInCredentials) => "err wildcard-credentials"
+  | .error (.config .originsNotIterable) => "err origins-not-iterable"
+  | .error .tooManyPositional => "err TypeError"
+  | .error .multipleValues => "err TypeError"
+
+def runCall (ws : List String) : String :=
+  let p := kv ws "pos"
+  let pos := if p == "-" || p == "" then [] else (p.splitOn "/").map decArg
+  cfgReply (Cg.construct { pos := pos, kwOrigins := decKw (kv ws "kao"), kwExpose := decKw (kv ws "kex"),
+                           kwCredentials := decKw (kv ws "kac") })
+
 /-! ### cors_enable wiring + the call discipline on the resulting stack -/
 def decMw (s : String) : Option Cg.Mw :=
   match s.toList with
@@ -125,7 +147,13 @@ def runStack (ws : List String) : String :=
     let adds := if addsS == "-" || addsS == "" then [] else (addsS.splitOn "/").map decMwArg
     let (st, oks) := Cg.runAdds ce st0 adds
     let fail := (kv ws "fail").toNat?
-    let beh : Nat → Pl.Comp := fun n => { req := some (if fail == some n then .raise_ else .ret), rsrc := none, resp := some .ret }
+    let rfail := (kv ws "rfail").toNat?
+    let pfail := (kv ws "pfail").toNat?
+    let hasRsrc := kv ws "rsrc" == "1"
+    let beh : Nat → Pl.Comp := fun n =>
+      { req := some (if fail == some n then .raise_ else .ret),
+        rsrc := if hasRsrc then some (if rfail == some n then .raise_ else .ret) else none,
+        resp := some (if pfail == some n then .raise_ else .ret) }
     let target : Pl.Target := match kv ws "target" with
       | "route" => .route | "nomethod" => .noMethod | "sink" => .sink | _ => .nothing
     let cfg : Pl.Cfg := { comps := Cg.comps beh st, independent := kv ws "indep" == "1", target := target,
@@ -145,6 +173,7 @@ partial def loop (h : IO.FS.Stream) : IO Unit := do
   match line.trimAscii.toString.splitOn " " with
   | "p" :: ws => IO.println (runCase ws)
   | "norm" :: ws => IO.println (runNorm ws)
+  | "call" :: ws => IO.println (runCall ws)
   | "stack" :: ws => IO.println (runStack ws)
   | _ => IO.println "bad-line"
   loop h
